@@ -52,6 +52,8 @@ func BuildChangeMap(commits []CommitMessage) map[string]map[string]int {
 					file, oldFile, newFile := UpdateMessageForChange(file)
 					if file != oldFile {
 						file = newFile
+					} else if moved := basicMvReg.FindStringSubmatch(file); len(moved) == 3 {
+						file = moved[2]
 					}
 
 					czMap[keyword][file]++
